@@ -169,6 +169,36 @@ func c17RunCase(c c17Case, idx int, w *c17World, dir string) *c17Bad {
 			return &c17Bad{Case: c, Problem: "dial of " + h + " never got an answer"}
 		}
 	}
+	// a retrying client dials a refused host again with the same callback: the refusal is no licence - the host is either
+	// refused at once or put before the user again (answered "no" here); it must not pass
+	for _, h := range hosts {
+		refused := true
+		for _, p := range proceeded {
+			if p == h {
+				refused = false
+			}
+		}
+		if !refused {
+			continue
+		}
+		again := make(chan error, 1)
+		throttle <- struct{}{}
+		go func(h string) { again <- wrap(w.server[h], w.remote[h], w.key[h]) }(h)
+		select {
+		case u := <-kc.unknownCh:
+			u.responseCh <- dontTrustHost
+			if err := <-again; err == nil {
+				return &c17Bad{Case: c, Problem: "refused host " + h + " passed although the second question was answered no"}
+			}
+		case err := <-again:
+			if err == nil {
+				return &c17Bad{Case: c, Problem: "host " + h + " was refused by the user, a second dial with the same callback passed without asking"}
+			}
+		case <-time.After(5 * time.Second):
+			return &c17Bad{Case: c, Problem: "second dial of refused host " + h + " never got an answer"}
+		}
+		<-throttle
+	}
 	afterB, _ := os.ReadFile(path)
 	after := string(afterB)
 	// the old lines that stay are a subsequence of the file (order kept): take their text as it was written
